@@ -2,7 +2,7 @@
 
   reset coded|repaired                      -> ready
   aj n pat | at n curve | ar n pat | ap n a b | apu n a b H|P curve pat | av n a b kind curve
-  apat n | acur n type | asrc n node pat | actl n nodes links
+  apat n | acur n type | asrc n node pat | actl n nodes links [style] | uctl n nodes links
   rn n wc force | rl n wc force | rpat n | rcur n | rsrc n | rctl n
   ss l n | se l n | ssp l pat | spc l c | shp n pat | svc n c | shc l c
                                             -> ok|refused|error
@@ -83,6 +83,10 @@ def parseOp (ts : List String) : Option Op :=
   | ["asrc", n, nd, p] => do pure (.addSource (← n.toNat?) (← nd.toNat?) (← optP p))
   | ["actl", n, ns, ls] => do
       pure (.addControl (← n.toNat?) (← natsP "," (if ns == "-" then "" else ns)) (← natsP "," (if ls == "-" then "" else ls)))
+  | ["actl", n, ns, ls, _] => do   -- 5th token: how the implementation side builds the condition (shared / own objects)
+      pure (.addControl (← n.toNat?) (← natsP "," (if ns == "-" then "" else ns)) (← natsP "," (if ls == "-" then "" else ls)))
+  | ["uctl", n, ns, ls] => do
+      pure (.updateControl (← n.toNat?) (← natsP "," (if ns == "-" then "" else ns)) (← natsP "," (if ls == "-" then "" else ls)))
   | ["rn", n, w, f] => do pure (.removeNode (← n.toNat?) (← boolP w) (← boolP f))
   | ["rl", n, w, f] => do pure (.removeLink (← n.toNat?) (← boolP w) (← boolP f))
   | ["rpat", n] => do pure (.removePattern (← n.toNat?))
